@@ -217,6 +217,7 @@ def run_pool(binp, sub, harness, seed, total_runs, deadline_s, outdir, nworkers)
             "VERIF_OUT": base + ".json", "VERIF_DEADLINE_S": str(max(1, int(t_end - time.time()))),
             "VERIF_PROGRESS": base + ".progress", "VERIF_SKIP": ",".join(str(x) for x in skip),
             "GOMAXPROCS": env.get("VERIF_GOMAXPROCS", "2"), "GOTRACEBACK": "all",
+            "VERIF_IMGCACHE": os.path.join(os.path.dirname(binp), "imgcache"),
         })
         if sub.get("env"):
             env.update(sub["env"])
@@ -474,7 +475,7 @@ def load_uninstr(root):
 
 def confirm_replay(binp, harness, rp, outroot, extra_env):
     env = dict(os.environ)
-    env.update({"VERIF_HARNESS": harness, "VERIF_REPLAY": rp, "VERIF_OUT": os.path.join(outroot, "replay-out.json"), "GOMAXPROCS": "2"})
+    env.update({"VERIF_HARNESS": harness, "VERIF_REPLAY": rp, "VERIF_OUT": os.path.join(outroot, "replay-out.json"), "GOMAXPROCS": "2", "VERIF_IMGCACHE": os.path.join(os.path.dirname(binp), "imgcache")})
     if extra_env:
         env.update(extra_env)
     try:
@@ -501,7 +502,7 @@ def do_replay(pid, spec, binp, rp, outroot):
         return 2
     env = dict(os.environ)
     sub = next((s for s in spec["harnesses"] if s["name"] == v["harness"]), {})
-    env.update({"VERIF_HARNESS": v["harness"], "VERIF_REPLAY": rp, "VERIF_OUT": os.path.join(outroot, "replay-out.json"), "GOMAXPROCS": "2"})
+    env.update({"VERIF_HARNESS": v["harness"], "VERIF_REPLAY": rp, "VERIF_OUT": os.path.join(outroot, "replay-out.json"), "GOMAXPROCS": "2", "VERIF_IMGCACHE": os.path.join(os.path.dirname(binp), "imgcache")})
     if sub.get("env"):
         env.update(sub["env"])
     p = subprocess.run(ulimit_wrap([binp, "-test.run", "^TestVerif$", "-test.timeout", "0"]), env=env, stdout=subprocess.PIPE, stderr=subprocess.STDOUT, text=True, cwd=outroot)
@@ -524,7 +525,8 @@ def do_replay(pid, spec, binp, rp, outroot):
 def run_single(binp, harness, seed, run_idx, outdir, extra_env):
     env = dict(os.environ)
     env.update({"VERIF_HARNESS": harness, "VERIF_SEED": str(seed), "VERIF_RUN_FROM": str(run_idx), "VERIF_RUN_TO": str(run_idx + 1),
-                "VERIF_RUN_STRIDE": "1", "VERIF_OUT": os.path.join(outdir, "single.json"), "GOMAXPROCS": "2", "VERIF_MIN_S": "0", "GOTRACEBACK": "all"})
+                "VERIF_RUN_STRIDE": "1", "VERIF_OUT": os.path.join(outdir, "single.json"), "GOMAXPROCS": "2", "VERIF_MIN_S": "0", "GOTRACEBACK": "all",
+                "VERIF_IMGCACHE": os.path.join(os.path.dirname(binp), "imgcache")})
     if extra_env:
         env.update(extra_env)
     try:
